@@ -309,6 +309,9 @@ class Interp:
     def fresh_term(self, base, minlen=0):
         t = z3.Const(self.fresh_name(base), T.Term)
         self.add(T.blen(t) >= minlen)
+        if minlen == 0:
+            # the empty byte string has one representation
+            self.add(z3.Implies(T.blen(t) == 0, t == T.lit_bytes(b'')))
         return t
 
     def register_input(self, name, expr):
@@ -1686,6 +1689,10 @@ def slice_term(I, x, lo, hi, pos, isstr):
         return x
     lc = I.concretize(l, 'tslice-lo') if not isinstance(l, int) else l
     hc = I.concretize(h, 'tslice-hi') if not isinstance(h, int) else h
+    for rule in getattr(I, 'term_slice_rules', []):
+        rr = rule(I, x.t, lc, hc)
+        if rr is not None:
+            return SymStr(rr) if isstr else TermBytes(rr)
     b = T.concrete_bytes(x.t)
     if b is not None:
         r = T.lit_bytes(b[lc:hc])
